@@ -172,7 +172,10 @@ class World:
             return []
         evs = []
         run = self.running()
-        if len(run) < self.W:
+        # a suggest can start a new trial (while fewer than T exist) or resume a paused one; otherwise it could only
+        # produce a trial beyond the horizon, which is cut anyway
+        can_suggest = len(self.trials) < self.T or any(st == PAUSED for st in self.status.values())
+        if len(run) < self.W and can_suggest:
             if self.nb:
                 evs += [("S", b) for b in range(self.nb)]
             else:
